@@ -2,8 +2,6 @@ package pom
 
 import (
 	"fmt"
-
-	"verif/harness/univ"
 )
 
 // A family is a base lineage plus slots; every set of at most Bound deviations
@@ -25,24 +23,41 @@ type FSlot struct {
 type FOpt struct {
 	Name  string
 	Apply func(l *Lineage)
+	Heavy bool
 }
 
-// Enumerate calls f with every lineage of the family within the bound and a label naming the deviations.
+// Enumerate calls f with every lineage of the family whose deviations cost at most bound, and a label naming them.
+// Options that exercise a recorded divergence from Maven cost two deviations, so that they are combined with
+// fewer other deviations.
 func (fa Family) Enumerate(bound int, f func(label string, l Lineage)) {
-	slots := make([]univ.Slot, len(fa.Slots))
-	for i, s := range fa.Slots {
-		slots[i] = univ.Slot{Options: len(s.Opts), Requires: -1}
-	}
-	univ.Enumerate(slots, bound, func(picks []univ.Pick) {
+	type pick struct{ slot, opt int }
+	var picks []pick
+	var rec func(start, left int)
+	rec = func(start, left int) {
 		l := fa.Base()
 		label := fa.Name
 		for _, p := range picks {
-			o := fa.Slots[p.Slot].Opts[p.Opt]
+			o := fa.Slots[p.slot].Opts[p.opt]
 			o.Apply(&l)
-			label += " +" + fa.Slots[p.Slot].Name + "=" + o.Name
+			label += " +" + fa.Slots[p.slot].Name + "=" + o.Name
 		}
 		f(label, l)
-	})
+		for s := start; s < len(fa.Slots); s++ {
+			for o, op := range fa.Slots[s].Opts {
+				c := 1
+				if op.Heavy {
+					c = 2
+				}
+				if c > left {
+					continue
+				}
+				picks = append(picks, pick{s, o})
+				rec(s+1, left-c)
+				picks = picks[:len(picks)-1]
+			}
+		}
+	}
+	rec(0, bound)
 }
 
 // file indices of the fixed skeleton
@@ -78,7 +93,10 @@ func skeleton() Lineage {
 	return l
 }
 
-func opt(name string, f func(l *Lineage)) FOpt { return FOpt{name, f} }
+func opt(name string, f func(l *Lineage)) FOpt { return FOpt{Name: name, Apply: f} }
+
+// heavy marks an option that exercises a recorded divergence.
+func heavy(o FOpt) FOpt { o.Heavy = true; return o }
 
 func activeProfile(id string) Profile   { return Profile{ID: id, Act: Activation{JDK: "[1.8,)"}} }
 func inactiveProfile(id string) Profile { return Profile{ID: id, Act: Activation{JDK: "1.7"}} }
@@ -105,7 +123,7 @@ func propsFamily() Family {
 	fa.Base = func() Lineage {
 		l := skeleton()
 		l.Files[fP].Deps = []Dep{{G: "g", A: "d", V: "${v}"}}
-		l.Files[fA2].Props = []KV{{"v", "A2"}}
+		l.Files[fA2].Props = []KV{{"v", "A2"}, {"w", "W"}}
 		return l
 	}
 	// the expression in the dependency's version
@@ -114,7 +132,12 @@ func propsFamily() Family {
 	var eo []FOpt
 	for _, e := range exprs {
 		e := e
-		eo = append(eo, opt(e, func(l *Lineage) {
+		mk := opt
+		switch e {
+		case "${}", "${artifactId}", "${project.artifactId}", "${project.parent.artifactId}", "${u}", "${v}${u}":
+			mk = func(name string, f func(l *Lineage)) FOpt { return heavy(opt(name, f)) }
+		}
+		eo = append(eo, mk(e, func(l *Lineage) {
 			for f := range l.Files {
 				for i := range l.Files[f].Deps {
 					if l.Files[f].Deps[i].A == "d" {
@@ -222,7 +245,9 @@ func propsFamily() Family {
 	}})
 	// expressions in other fields of the dependency
 	fa.Slots = append(fa.Slots, FSlot{"field", []FOpt{
-		opt("scope", func(l *Lineage) { l.Files[fP].Deps = append(l.Files[fP].Deps, Dep{G: "g", A: "f", V: "1", Scope: "${v}"}) }),
+		opt("scope", func(l *Lineage) {
+			l.Files[fP].Deps = append(l.Files[fP].Deps, Dep{G: "g", A: "f", V: "1", Scope: "${v}"})
+		}),
 		opt("artifact", func(l *Lineage) { l.Files[fP].Deps = append(l.Files[fP].Deps, Dep{G: "g", A: "f-${v}", V: "1"}) }),
 		opt("group", func(l *Lineage) {
 			l.Files[fP].Deps = append(l.Files[fP].Deps, Dep{G: "${project.groupId}", A: "f", V: "1"})
@@ -264,14 +289,20 @@ func mgmtFamily() Family {
 	)
 	// further declarations of the same dependency
 	fa.Slots = append(fa.Slots, FSlot{"again", []FOpt{
-		opt("p:7", func(l *Lineage) { l.Files[fP].Deps = append(l.Files[fP].Deps, Dep{G: "g", A: "d", V: "7"}) }),
-		opt("p:7-first", func(l *Lineage) {
+		heavy(opt("p:7", func(l *Lineage) { l.Files[fP].Deps = append(l.Files[fP].Deps, Dep{G: "g", A: "d", V: "7"}) })),
+		heavy(opt("p:7-first", func(l *Lineage) {
 			l.Files[fP].Deps = append([]Dep{{G: "g", A: "d", V: "7", Scope: "test"}}, l.Files[fP].Deps...)
 			l.Files[fP].Deps[1], l.Files[fP].Deps[2] = l.Files[fP].Deps[2], l.Files[fP].Deps[1]
+		})),
+		opt("a1:8", func(l *Lineage) {
+			l.Files[fA1].Deps = append(l.Files[fA1].Deps, Dep{G: "g", A: "d", V: "8", Scope: "provided"})
 		}),
-		opt("a1:8", func(l *Lineage) { l.Files[fA1].Deps = append(l.Files[fA1].Deps, Dep{G: "g", A: "d", V: "8", Scope: "provided"}) }),
-		opt("a1:none", func(l *Lineage) { l.Files[fA1].Deps = append(l.Files[fA1].Deps, Dep{G: "g", A: "d"}, Dep{G: "g", A: "k", V: "1"}) }),
-		opt("a2:test-jar", func(l *Lineage) { l.Files[fA2].Deps = append(l.Files[fA2].Deps, Dep{G: "g", A: "d", V: "9", Type: "test-jar"}) }),
+		opt("a1:none", func(l *Lineage) {
+			l.Files[fA1].Deps = append(l.Files[fA1].Deps, Dep{G: "g", A: "d"}, Dep{G: "g", A: "k", V: "1"})
+		}),
+		opt("a2:test-jar", func(l *Lineage) {
+			l.Files[fA2].Deps = append(l.Files[fA2].Deps, Dep{G: "g", A: "d", V: "9", Type: "test-jar"})
+		}),
 	}})
 	// managed entries for d at each place, in several shapes
 	shapes := []struct {
@@ -291,17 +322,19 @@ func mgmtFamily() Family {
 		var os []FOpt
 		for _, sh := range shapes {
 			sh := sh
-			os = append(os, opt(sh.name, func(l *Lineage) { l.Files[f].Mgmt = append(l.Files[f].Mgmt, sh.mk(fileNames[f])) }))
+			os = append(os, opt(sh.name, func(l *Lineage) {
+				if f == fA2 {
+					// replaces the base's entry: several managed declarations of one key in a single file are
+					// outside the domain (Maven's own answer then depends on whether an ancestor manages anything)
+					l.Files[f].Mgmt = l.Files[f].Mgmt[1:]
+				}
+				l.Files[f].Mgmt = append(l.Files[f].Mgmt, sh.mk(fileNames[f]))
+			}))
 		}
 		if f == fP || f == fA1 {
 			os = append(os, opt("profile", func(l *Lineage) {
 				p := profileAt(l, f, "on", activeProfile)
 				p.Mgmt = append(p.Mgmt, Dep{G: "g", A: "d", V: fileNames[f] + ".on"})
-			}))
-		}
-		if f == fP {
-			os = append(os, opt("twice", func(l *Lineage) {
-				l.Files[f].Mgmt = append(l.Files[f].Mgmt, Dep{G: "g", A: "d", V: "p-1"}, Dep{G: "g", A: "k", V: "1"}, Dep{G: "g", A: "d", V: "p-2", Scope: "test"})
 			}))
 		}
 		fa.Slots = append(fa.Slots, FSlot{"mg@" + fileNames[f], os})
@@ -333,10 +366,6 @@ func mgmtFamily() Family {
 				l.Files[fP].Mgmt = append([]Dep{{G: c[0], A: c[1], V: c[2], Type: "pom", Scope: "import"}}, l.Files[fP].Mgmt...)
 			}),
 			opt("b1-by-property", both(imp(fP, fB1, "${bv}"), func(l *Lineage) { l.Files[fA1].Props = append(l.Files[fA1].Props, KV{"bv", "1"}) })),
-			opt("b1-jar", func(l *Lineage) {
-				c := l.Files[fB1].Coord
-				l.Files[fP].Mgmt = append(l.Files[fP].Mgmt, Dep{G: c[0], A: c[1], V: c[2], Scope: "import"})
-			}),
 			opt("b1-in-profile", func(l *Lineage) {
 				c := l.Files[fB1].Coord
 				p := profileAt(l, fP, "on", activeProfile)
@@ -493,7 +522,7 @@ func profilesFamily(full bool) Family {
 	}
 	// y declared before x
 	fa.Slots = append(fa.Slots, FSlot{"y-first", []FOpt{opt("jdk=11", func(l *Lineage) {
-		l.Files[fP].Profiles = append([]Profile{{ID: "y", Act: Activation{JDK: "11"}, Props: []KV{{"v", "y"}}, Deps: []Dep{{G: "g", A: "dy", V: "1"}}}}, l.Files[fP].Profiles...)
+		l.Files[fP].Profiles = append([]Profile{{ID: "y0", Act: Activation{JDK: "11"}, Props: []KV{{"v", "y0"}}, Deps: []Dep{{G: "g", A: "dy0", V: "1"}}}}, l.Files[fP].Profiles...)
 		// keep x at index 0 for the x slot: it is applied before this one
 	})}})
 	// what x contributes
@@ -534,9 +563,91 @@ func profilesFamily(full bool) Family {
 	return fa
 }
 
+// ---------------------------------------------------------------------------------------------
+// family "imports": the order in which nested and sibling imports are merged
+
+func importsFamily() Family {
+	fa := Family{Name: "imports", Quick: 2, Full: 3}
+	imp := func(l *Lineage, from, bom int) {
+		c := l.Files[bom].Coord
+		l.Files[from].Mgmt = append(l.Files[from].Mgmt, Dep{G: c[0], A: c[1], V: c[2], Type: "pom", Scope: "import"})
+	}
+	fa.Base = func() Lineage {
+		l := skeleton()
+		l.Files[fP].Deps = []Dep{{G: "g", A: "d"}, {G: "g", A: "e", V: "1"}}
+		imp(&l, fP, fB1)
+		imp(&l, fP, fB2)
+		imp(&l, fB1, fB3)
+		l.Files[fB3].Mgmt = append(l.Files[fB3].Mgmt, Dep{G: "g", A: "d", V: "b3", Scope: "runtime"}, Dep{G: "g", A: "k", V: "b3"})
+		l.Files[fB2].Mgmt = append(l.Files[fB2].Mgmt, Dep{G: "g", A: "d", V: "b2", Excl: []string{"y:b2"}}, Dep{G: "g", A: "m", V: "b2"})
+		return l
+	}
+	for _, f := range []int{fP, fA1, fB1, fB2, fB3, fBP} {
+		f := f
+		// several managed declarations of one key in a single file are outside the domain: an option replaces the
+		// file's entry for that artifact if there is one
+		put := func(l *Lineage, first bool, ds ...Dep) {
+			for _, d := range ds {
+				var rest []Dep
+				for _, m := range l.Files[f].Mgmt {
+					if m.A != d.A || m.Scope == "import" {
+						rest = append(rest, m)
+					}
+				}
+				if first {
+					l.Files[f].Mgmt = append([]Dep{d}, rest...)
+				} else {
+					l.Files[f].Mgmt = append(rest, d)
+				}
+			}
+		}
+		fa.Slots = append(fa.Slots, FSlot{"mg@" + fileNames[f], []FOpt{
+			opt("d", func(l *Lineage) { put(l, false, Dep{G: "g", A: "d", V: fileNames[f] + "'"}) }),
+			opt("d-first", func(l *Lineage) { put(l, true, Dep{G: "g", A: "d", V: fileNames[f] + "'"}) }),
+			opt("k,m", func(l *Lineage) {
+				put(l, false, Dep{G: "g", A: "k", V: fileNames[f] + "'"}, Dep{G: "g", A: "m", V: fileNames[f] + "'", Scope: "test"})
+			}),
+		}})
+	}
+	fa.Slots = append(fa.Slots,
+		FSlot{"drop", []FOpt{
+			opt("d@b3", func(l *Lineage) { l.Files[fB3].Mgmt = l.Files[fB3].Mgmt[1:] }),
+			opt("d@b2", func(l *Lineage) { l.Files[fB2].Mgmt = l.Files[fB2].Mgmt[1:] }),
+		}},
+		FSlot{"more", []FOpt{
+			opt("b2->b3", func(l *Lineage) { imp(l, fB2, fB3) }),
+			opt("b3->b2", func(l *Lineage) { imp(l, fB3, fB2) }),
+			opt("b1->b2", func(l *Lineage) { imp(l, fB1, fB2) }),
+			opt("a1->b3", func(l *Lineage) { imp(l, fA1, fB3) }),
+			opt("a1->b2", func(l *Lineage) { imp(l, fA1, fB2) }),
+			opt("p->b3", func(l *Lineage) { imp(l, fP, fB3) }),
+			opt("p->b3-first", func(l *Lineage) {
+				c := l.Files[fB3].Coord
+				l.Files[fP].Mgmt = append([]Dep{{G: c[0], A: c[1], V: c[2], Type: "pom", Scope: "import"}}, l.Files[fP].Mgmt...)
+			}),
+			opt("b1-parent-bp->b2", func(l *Lineage) {
+				l.Files[fB1].Parent = parentOf(l.Files[fBP].Coord)
+				imp(l, fBP, fB2)
+			}),
+		}},
+		FSlot{"swap", []FOpt{opt("p:b2,b1", func(l *Lineage) {
+			m := l.Files[fP].Mgmt
+			m[0], m[1] = m[1], m[0]
+		})}},
+		FSlot{"dep", []FOpt{
+			opt("k,m", func(l *Lineage) {
+				l.Files[fP].Deps = append(l.Files[fP].Deps, Dep{G: "g", A: "k"}, Dep{G: "g", A: "m"})
+			}),
+			opt("own-excl", func(l *Lineage) { l.Files[fP].Deps[0].Excl = []string{"x:x"} }),
+			opt("own-scope", func(l *Lineage) { l.Files[fP].Deps[0].Scope = "provided" }),
+		}},
+	)
+	return fa
+}
+
 // Families returns the families of the tier's domain.
 func Families(full bool) []Family {
-	return []Family{propsFamily(), mgmtFamily(), profilesFamily(full)}
+	return []Family{propsFamily(), mgmtFamily(), profilesFamily(full), importsFamily()}
 }
 
 // Domain enumerates the tier's lineages (deduplicated by content), in a deterministic order.
